@@ -308,6 +308,14 @@ export_case(token_for([KEYS[7], KEYS[8], KEYS[0]]), ks, None, "carry", "key-tag-
 ks = {"a": ceremony.ksk_def(KEYS[9], valid_from=t0), "b": ceremony.ksk_def(KEYS[10], valid_from=t0 + dt.timedelta(days=2))}
 for wrapped in (True, False):
     export_case([[{"id": 0, "objs": S.pair(KEYS[9]["id"], KEYS[9], ec_wrapped=wrapped) + S.pair(KEYS[10]["id"], KEYS[10], ec_wrapped=wrapped)}]], ks, None, "x04", "ec-x-starts-with-04")
+# two configured KSKs of one algorithm that share their 16-bit key tag: each entry still states its own key's digest (in one export and in the next)
+_twa, _twb = P.ec_tag_collision(13, 257)
+TW = [ksrxml.mk_key(_twa, alg=13, flags=257, ident="Ktwin1"), ksrxml.mk_key(_twb, alg=13, flags=257, ident="Ktwin2")]
+P.save()
+ks = {"a": ceremony.ksk_def(TW[0], valid_from=t0), "b": ceremony.ksk_def(TW[1], valid_from=t0 + dt.timedelta(days=3))}
+export_case(token_for(TW), ks, None, "twins", "equal-key-tags")
+export_case(token_for([TW[1]]), {"b": ceremony.ksk_def(TW[1], valid_from=t0)}, None, "twin-b", "equal-key-tags")
+export_case(token_for([TW[0]]), {"a": ceremony.ksk_def(TW[0], valid_from=t0)}, None, "twin-a", "equal-key-tags")
 # RSA public exponents of every length form of RFC 3110 (one length octet up to 255 octets, three beyond): public objects given by their raw attributes
 import PyKCS11.LowLevel as _LL
 for elen in (1, 3, 4, 254, 255, 256, 257):
